@@ -486,6 +486,42 @@ fn grammar_entropy(rng: &mut Rng) -> (Vec<u8>, String) {
         user_fields(rng, &mut e, &mut desc);
     }
     if rng.chance(1, 4) {
+        // GetAssertion / ClientPin: the relying-party id is a borrowed &str whose length is read from
+        // the END of the data (one byte while at most 256 bytes remain, two bytes big-endian beyond)
+        let long = rng.coin();
+        let n1 = if long { 257 + rng.usize_below(120) } else { rng.usize_below(150) };
+        let mut text = crate::schema::utf8_text(rng, n1);
+        if rng.chance(1, 8) && !text.is_empty() {
+            let k = rng.usize_below(text.len());
+            text[k] = 0xff;
+        }
+        let client_pin = rng.chance(1, 3);
+        let mut e = Vec::new();
+        if client_pin {
+            e.extend_from_slice(&[rng.next() as u8, rng.next() as u8, rng.next() as u8, 103 + rng.below(24) as u8]);
+            e.push(rng.below(3) as u8); // pin protocol
+            e.extend_from_slice(&rng.bytes(4)); // sub-command choice
+            e.extend_from_slice(&[0, 0, 0, 0, 0, 0]); // no key agreement, pin auth, new pin, pin hash, placeholders
+            e.extend_from_slice(&[1, rng.next() as u8]); // permissions
+            e.push(1); // rp id present
+            e.extend_from_slice(&text);
+            e.extend_from_slice(&[0u8; 24]);
+        } else {
+            e.extend_from_slice(&[rng.next() as u8, rng.next() as u8, rng.next() as u8, 26 + rng.below(25) as u8]);
+            e.extend_from_slice(&text);
+            e.extend_from_slice(&[0u8; 40]); // empty client data hash, no lists, no extensions, ...
+            // length of the client data hash (read second): zero
+            if long { e.extend_from_slice(&[0, 0]) } else { e.push(0) }
+        }
+        // length of the rp id (read first, so it sits at the very end)
+        if e.len() + 2 > 256 {
+            e.extend_from_slice(&(text.len() as u16).to_be_bytes());
+        } else {
+            e.push(text.len() as u8);
+        }
+        return (e, format!("{} with a {}-byte relying-party id of 1-4 byte characters (length in the tail)", if client_pin { "ClientPin" } else { "GetAssertion" }, text.len()));
+    }
+    if rng.chance(1, 4) {
         // CredentialManagement with a credential descriptor: its id (&[u8]) and type (&str) come from
         // the arbitrary crate's own generators, which read their lengths from the END of the data
         // (last byte first) and their content from the cursor. Total kept below 256 bytes so that
